@@ -32,12 +32,27 @@ structure OpOK (e : Bool) (op : Impl.Op) : Prop where
   /-- `copy` has a `from` member (`decodeOp` rejects the operation otherwise) -/
   frm : op.kind = ascii "copy" → op.frm ≠ none
 
+/-- an `add` / `replace` without a `value` member is outside the domain — unless its pointer is
+outside RFC 6901 (no leading `/`), which the specification rejects first -/
 theorem spec_novalue {so : Spec.Opts} {sz acc : Nat} {doc : Value} {sop : Spec.Op}
     (hk : sop.kind = .add ∨ sop.kind = .replace) (hv : sop.value = none) :
-    Spec.applyOp so sz acc doc sop = .unspec := by
+    Spec.applyOp so sz acc doc sop =
+      if Spec.parsePointer sop.path = none then .fail .parentUnreachable else .unspec := by
   cases hp : Spec.parsePointer sop.path with
-  | none => simp only [Spec.applyOp, hp]
-  | some toks => rcases hk with hk | hk <;> simp only [Spec.applyOp, hp, hk, hv]
+  | none => rcases hk with hk | hk <;> simp [Spec.applyOp, hp, hk]
+  | some toks => rcases hk with hk | hk <;> simp [Spec.applyOp, hp, hk, hv]
+
+/-- `spec_novalue` as the engine theorems use it: where the specification decides (a pointer
+without a leading `/`), the operation is an error of the engine too -/
+theorem novalue_refines {e : Bool} {so : Spec.Opts} {sz acc : Nat} {doc : Value} {sop : Spec.Op}
+    {out : Outcome Root}
+    (hk : sop.kind = .add ∨ sop.kind = .replace) (hv : sop.value = none)
+    (hout : Spec.parsePointer sop.path = none → ∃ er, out = .err er) :
+    OpRef e (Spec.applyOp so sz acc doc sop) out := by
+  rw [spec_novalue hk hv]
+  split
+  · next hp => exact hout hp
+  · trivial
 
 theorem fstOut_lift (acc : Int) (x : Outcome Root) :
     fstOut (match x with
@@ -69,7 +84,8 @@ theorem applyOp_refines (hEq : EqSpec) (o : Impl.Opts) (ho : o.ensure = false) (
         simp only [Impl.applyOp]; rw [if_pos h1]; exact fstOut_lift _ _
       rw [happ]
       cases hv : op.value with
-      | none => rw [spec_novalue (Or.inl rfl) (by simp)]; trivial
+      | none =>
+        exact novalue_refines (Or.inl rfl) (by simp) (fun hp => ⟨_, opAdd_path_none o r op ho hp⟩)
       | some c =>
         exact opAdd_refines sz acc ho hr rfl rfl hv (by simp) (hvalInv c hv) hop.toks
     · simp only [h1, if_false] at hkind
@@ -88,7 +104,8 @@ theorem applyOp_refines (hEq : EqSpec) (o : Impl.Opts) (ho : o.ensure = false) (
             simp only [Impl.applyOp]; rw [if_neg h1, if_neg h2, if_pos h3]; exact fstOut_lift _ _
           rw [happ]
           cases hv : op.value with
-          | none => rw [spec_novalue (Or.inr rfl) (by simp)]; trivial
+          | none =>
+            exact novalue_refines (Or.inr rfl) (by simp) (fun hp => ⟨_, opReplace_path_none o r op hp⟩)
           | some c =>
             exact opReplace_refines sz acc hr rfl rfl hv (by simp) (hvalInv c hv) hop.toks
         · simp only [h3, if_false] at hkind
@@ -451,13 +468,13 @@ theorem applyOp_keeps (o : Spec.Opts) (ho : o.ensure = false) (sz acc acc' : Nat
   | move => exact absurd hkind hk
   | add =>
     cases hv : sop.value with
-    | none => rw [spec_novalue (Or.inl hkind) hv] at h; cases h
+    | none => rw [spec_novalue (Or.inl hkind) hv, hp] at h; simp at h
     | some v =>
       rw [spec_add hkind hp hv ho] at h
       exact key _ (fun _ => acc) (keeps_addIn o v) h
   | replace =>
     cases hv : sop.value with
-    | none => rw [spec_novalue (Or.inr hkind) hv] at h; cases h
+    | none => rw [spec_novalue (Or.inr hkind) hv, hp] at h; simp at h
     | some v =>
       rw [spec_replace hkind hp hv] at h
       exact key _ (fun _ => acc) (keeps_replaceIn o v) h
@@ -799,6 +816,54 @@ example (hEq : EqSpec) :
   rw [hs] at h
   obtain ⟨r', h1, h2, _⟩ := h
   exact ⟨r', h1, h2⟩
+
+/-! ### pointers without a leading `/` (outside RFC 6901): decided by the specification -/
+
+/-- the hypotheses of `applyOps_refines` for a one-operation patch without a value on `exR` -/
+theorem ex_single (hEq : EqSpec) (op : Impl.Op) (sop : Spec.Op) (hs : specOps [op] = some [sop])
+    (hval : op.value = none)
+    (hq : ∀ toks, Spec.parsePointer op.path = some toks → ∀ t ∈ toks, Impl.QK exO.esc t = true)
+    (hf : op.kind = ascii "copy" → op.frm ≠ none) :
+    match Spec.applyFrom (specOpts exO) (fun _ => 0) 0 0 (Impl.den exR.con) [sop] with
+    | .ok v => ∃ r', Impl.applyOps exO exR 0 [op] = .ok r' ∧ Impl.den r'.con = v ∧
+        Impl.WFRoot r' = true ∧ Impl.TX exO.esc r'.con = true
+    | .fail _ _ => ∃ e, Impl.applyOps exO exR 0 [op] = .err e
+    | .unspec => True :=
+  applyOps_refines hEq exO rfl rfl exR (by decide) (by decide) [op] [sop] hs
+    (by intro o ho c hc; simp only [List.mem_singleton] at ho; subst ho; rw [hval] at hc; cases hc)
+    (by intro o ho c hc; simp only [List.mem_singleton] at ho; subst ho; rw [hval] at hc; cases hc)
+    (by intro o ho; simp only [List.mem_singleton] at ho; subst ho; exact hq)
+    (by intro o ho; simp only [List.mem_singleton] at ho; subst ho; exact hf)
+    (fun _ => 0) 0 0 0
+
+/-- `remove "a/x"` (no leading `/`): the specification fails with `parentUnreachable`, the engine
+errs; `copy` to `"x"` from the absent `/zz`: the source half is evaluated first and its failure
+(`absentMember`) is the one reported; `move` to `"x"` from `"k"`: both pointers are malformed -/
+example (hEq : EqSpec) :
+    (∃ e, Impl.applyOps exO exR 0 [{ kind := ascii "remove", path := ascii "a/x" }] = .err e) ∧
+    (∃ e, Impl.applyOps exO exR 0
+      [{ kind := ascii "copy", path := ascii "x", frm := some (ascii "/zz") }] = .err e) ∧
+    (∃ e, Impl.applyOps exO exR 0
+      [{ kind := ascii "move", path := ascii "x", frm := some (ascii "k") }] = .err e) := by
+  refine ⟨?_, ?_, ?_⟩
+  · have h := ex_single hEq { kind := ascii "remove", path := ascii "a/x" }
+      { kind := .remove, path := ascii "a/x" } (by rfl) rfl
+      (by intro toks ht; cases ht) (by intro hk; exact absurd hk (by decide))
+    have hs : Spec.applyFrom (specOpts exO) (fun _ => 0) 0 0 (Impl.den exR.con)
+        [{ kind := .remove, path := ascii "a/x" }] = .fail 0 .parentUnreachable := by rfl
+    rw [hs] at h; exact h
+  · have h := ex_single hEq { kind := ascii "copy", path := ascii "x", frm := some (ascii "/zz") }
+      { kind := .copy, path := ascii "x", frm := ascii "/zz" } (by rfl) rfl
+      (by intro toks ht; cases ht) (by intro _; simp)
+    have hs : Spec.applyFrom (specOpts exO) (fun _ => 0) 0 0 (Impl.den exR.con)
+        [{ kind := .copy, path := ascii "x", frm := ascii "/zz" }] = .fail 0 .absentMember := by rfl
+    rw [hs] at h; exact h
+  · have h := ex_single hEq { kind := ascii "move", path := ascii "x", frm := some (ascii "k") }
+      { kind := .move, path := ascii "x", frm := ascii "k" } (by rfl) rfl
+      (by intro toks ht; cases ht) (by intro hk; exact absurd hk (by decide))
+    have hs : Spec.applyFrom (specOpts exO) (fun _ => 0) 0 0 (Impl.den exR.con)
+        [{ kind := .move, path := ascii "x", frm := ascii "k" }] = .fail 0 .parentUnreachable := by rfl
+    rw [hs] at h; exact h
 
 /-- `move_eq_remove_add` on `{"a":1}`, `move /a → /b` -/
 example :
